@@ -368,7 +368,13 @@ fn main() {
     let mut rng = Rng::new(args.seed);
 
     let mut names: Vec<String> = FIXED_NAMES.iter().map(|s| s.to_string()).collect();
+    let mut derived: std::collections::HashSet<String> = Default::default();
     for w in RESERVED {
+        for v in [w.to_lowercase(), w.to_uppercase(), capitalised(w), format!("{w}X"), format!("x{w}"), format!("{w}-1")] {
+            if v != *w {
+                derived.insert(v);
+            }
+        }
         names.push(w.to_string());
         names.push(w.to_lowercase());
         names.push(w.to_uppercase());
@@ -417,8 +423,15 @@ fn main() {
 
     // (2) positions
     let mut npos = 0u64;
-    for n in &names {
+    for (idx, n) in names.iter().enumerate() {
+        // quick tier: names outside the fixed list (variants of reserved words, random names) go to a
+        // rotating quarter of the positions
+        let _ = &derived;
+        let rotate = !thorough && !FIXED_NAMES.contains(&n.as_str()) && !RESERVED.contains(&n.as_str());
         for pos in 0..POSITIONS.len() {
+            if rotate && (pos + idx) % 4 != 0 {
+                continue;
+            }
             pos_case(&mut run, pos, n);
             npos += 1;
         }
@@ -428,7 +441,7 @@ fn main() {
          names, every reserved word in 7 spelling variants, expression-reserved words in several cases, seeded \
          random identifiers) alone, with the target and variable sigils and followed by a dash or bracket, and for \
          every text of the stated length over {a,Z,_,-,1,@,%} starting with a letter, underscore or sigil; PosC: \
-         every pool name in 43 name-taking positions. Distinct by text / (position, name); non-trivial = a name with \
+         every pool name in 43 name-taking positions (quick tier: names outside the fixed list in a rotating quarter of them). Distinct by text / (position, name); non-trivial = a name with \
          an upper-case letter, dash or underscore reached the AST (PosC), or a token longer than one byte (LexC).",
         true,
         serde_json::json!({"exhaustive_max_len": maxlen, "exhaustive_texts": exhaustive_texts, "names": names.len(),
